@@ -399,9 +399,20 @@ def build_evidence(prop, tier, seed, contracts, all_obs, by_name, proved, infos,
             "rule": "inputs drawn by the contract's own generators (seeded); labelled bounded, never counted as proved",
         }
     discharged = sum(1 for n, obs in counted.items() if all(o.verdict == "unsat" for o in obs))
+    n_eval = sum(r["runs"] for r in nat.values())
+    n_distinct = sum(len(r["distinct"]) for r in nat.values())
+    nat_samples = [smp for r in nat.values() for smp in r["samples"][:1]]
+    level = "proof" if counted else "exploration"
+    if not counted:
+        samples = nat_samples
     ev = {
-        "property_id": prop, "tier": tier, "seed": seed, "level": "proof",
+        "property_id": prop, "tier": tier, "seed": seed, "level": level,
         "coverage": {
+            "evaluations": n_eval, "distinct_nontrivial": n_distinct,
+            "rule": "bounded layer: inputs drawn by each harness's own seeded generators; two cases are distinct when their "
+                    "generated input records differ; a case is non-trivial when the harness reached its postconditions "
+                    "(precondition-skipped draws are not counted)",
+            "bounded_samples": nat_samples[:3],
             "obligations": len(counted), "discharged": discharged,
             "obligation_instances": len(all_obs),
             "checker_cmd": f"./check {prop} --tier {tier}",
